@@ -420,8 +420,8 @@ class C12(Property):
             "password/file/image, labels paired with a control; form mode renders one control (group) per leaf and feeds the "
             "posted pairs to from_flat.  non-trivial = some control posts a pair or is deliberately unchecked; distinct = distinct "
             "canonical case JSON")
-    quick_n = 3000
-    thorough_n = 100000
+    quick_n = 40000
+    thorough_n = 300000
 
     # ------------------------------------------------------------------ cases
     def corpus(self):
